@@ -416,6 +416,8 @@ def p_cg_clock(a):
     items, valueof, decode = algo_items(a)
     keep = a["keep"]
     kw = kwargs_of(a)
+    if "wobjective" in a:      # the weighted objective (no driver model: judged for validity only)
+        kw["objective"] = OBJ.MaximizeSmallestWeightedSum(list(a["wobjective"]))
     real = cgm.time
     try:
         if a["limit"] >= 0:
